@@ -214,6 +214,17 @@ def run(prog, R):
             elif built_im:
                 badim.append("to_imaginary_texpr without an `im` unit test: " + show(r)[:60])
         R.ob("C10.4-imaginary-constructor", "every `im` literal path (int/float, plain/negated) builds the value with to_imaginary_texpr", nim >= 4 and not badim and "Imaginary" in TU, ex_.at, f"{nim} imaginary-literal paths; deviating {badim[:2]}")
+    # bit strings: the two accessors for the text between the quotes (`value`, used for the width, and `str`, used for
+    # the literal's bits) compute the same slice through text_range_between_quotes(), which accepts both kinds of quote
+    bv, bs_ = prog.body(TE + "BitString::value"), prog.body(TE + "BitString::str")
+    if bv and bs_:
+        cv = sorted(set((bv.callee_of(t) or "").split("::")[-1] for _, t in bv.calls()))
+        cs_ = sorted(set((bs_.callee_of(t) or "").split("::")[-1] for _, t in bs_.calls()))
+        delegates = any((bs_.callee_of(t) or "").endswith("BitString::value") for _, t in bs_.calls()) or any((bv.callee_of(t) or "").endswith("BitString::str") for _, t in bv.calls())
+        same = delegates or "text_range_between_quotes" in cv and "text_range_between_quotes" in cs_ and set(cs_) <= set(cv) | {"from", "into"} and set(cv) - set(cs_) <= {"from", "into", "Borrowed"}
+        R.ob("C10.4-bitstring-accessors-agree", "BitString::str and BitString::value slice the same range", same, bs_.at, f"value: {cv}; str: {cs_}")
+    else:
+        R.ob("ANCHOR", "BitString::value / BitString::str", False)
     lk = prog.body("oq3_syntax::ast::expr_ext::Literal::kind")
     if lk:
         ps, _ = paths(prog, lk.npath)
